@@ -280,6 +280,8 @@ func ownerRefs(owner, setName string) []metav1.OwnerReference {
 		return []metav1.OwnerReference{{APIVersion: "apps.pingcap.com/v1", Kind: "StatefulSet", Name: setName, UID: staleUID, Controller: &t, BlockOwnerDeletion: &t}}
 	case "other":
 		return []metav1.OwnerReference{{APIVersion: "apps/v1", Kind: "ReplicaSet", Name: "someone", UID: otherUID, Controller: &t, BlockOwnerDeletion: &t}}
+	case "builtin": // the built-in StatefulSet the set was converted from (projected as owner class "other")
+		return []metav1.OwnerReference{{APIVersion: "apps/v1", Kind: "StatefulSet", Name: setName, UID: "builtin-uid", Controller: &t, BlockOwnerDeletion: &t}}
 	}
 	return nil
 }
